@@ -23,7 +23,9 @@ def worker(wseed, prop, genname, budget_s, hist_len, binary, check_every=0, max_
             try:
                 d.reset()
                 n = rng.randrange(hist_len[0], hist_len[1])
-                if seeder == "pool" and rng.random() < 0.85:
+                if seeder == "pool" and genname.endswith("gen_group_cmd"):
+                    pass
+                elif seeder == "pool" and rng.random() < 0.85:
                     for argv in gen.seed_commands(rng):
                         d.step(argv, probe=False, cellinfo=False)
                 for i in range(n):
